@@ -414,6 +414,10 @@ def _spec(rnd, mode=None):
             "other": [[o0, o0 + rnd.randrange(1, 6)]], "vpos": rnd.randrange(vlo, vhi)}
 
 
+class _Stranger:
+    """an object of a class the library knows nothing about"""
+
+
 def _replay(args):
     kind, hists, seed = args
     setup_repo_import()
@@ -478,7 +482,9 @@ def _replay(args):
         tans = answer(lambda: acts[h[-1]](T, tops))
         # equality with the twin is itself an accessor ("eq_twin"): asked of X after the history
         ev.append(["hist", kind, h, ans[0], ans[1], tans[0], tans[1], before, after,
-                   "eq" if (X == T and hash(X) == hash(T)) else "neq"])
+                   # (equal to its twin -- and to nothing of another kind)
+                   "eq" if (X == T and hash(X) == hash(T) and not (X == _Stranger()) and not (X == 0) and X != None  # noqa: E711
+                            and not (X == "x")) else "neq"])
     return ev
 
 
